@@ -128,11 +128,13 @@ func (self ValueString) iterNext() (Value, bool) {
 	old := *self.currIterIdx
 	*self.currIterIdx++
 
-	shouldContinue := *self.currIterIdx <= len(self.Inner)
+	// Iterate over the characters (runes) of the string
+	runes := []rune(self.Inner)
+	shouldContinue := *self.currIterIdx <= len(runes)
 
 	if shouldContinue {
 		return *NewValueString(
-			fmt.Sprint(self.Inner[old]),
+			string(runes[old]),
 		), true
 	} else {
 		self.iterReset()
